@@ -361,7 +361,8 @@ def slice_entries(case):
 
 
 def transpose_class(case, obs):
-    """Class string of a failing transposition (the input classes of findings F2/F4)."""
+    """Class string of a failing transposition (the input classes of the findings F2/F4,
+    all fixed: empty slices, no stored value, fewer stored values than rows, no row)."""
     lo, hi, ent = slice_entries(case)
     nnz = len(ent)
     if case['route'] != 'v2':
@@ -1024,7 +1025,7 @@ def op_amalgamate(ctx, d, i):
         res = ctx.model([(1306, sources)])[0]
     spec, corr = [], []
     # CSC sources: the model of the conversion + get_batch must agree with the CSR view used
-    # above, or fail the way the implementation does (F2: no stored value -> ValueError)
+    # above (a source without any stored value included: the former finding F2)
     csc_err = None
     for r510, exp in zip(ctx.model(csc_calls) if csc_calls else [], csc_expect):
         if r510[0] == 1:
